@@ -12,6 +12,9 @@ tmp = tempfile.mkdtemp(prefix="verif-seed-")
 repo = os.path.join(tmp, "repo")
 try:
     subprocess.run(["git", "clone", "-q", "/repo", repo], check=True)
+    if meta.get("base"):
+        # a seed written against an earlier /repo commit (before a later `fix:` touched the same lines)
+        subprocess.run(["git", "-C", repo, "checkout", "-q", meta["base"]], check=True)
     subprocess.run(["git", "-C", repo, "apply", os.path.join(d, "patch.diff")], check=True)
     for pid in ids:
         outdir = os.path.join(tmp, "ev")
